@@ -1083,15 +1083,17 @@ pub fn main(args: &Args) {
             out.emit(&c, &t);
         }
     }
+    let only = args.str("only-transport").and_then(|s| s.parse().ok()).and_then(tcp::Tk::of_tag); // e.g. 9002: QUIC cases only
     for i in 0..ncases {
         let mut r = rng.fork();
         let (c, t) = if focus_limits {
             catch_unwind(AssertUnwindSafe(|| c06.generated(&rt, &mut r, thorough, i)))
                 .unwrap_or((vec![c06x::TAG_WRAPPED, 0], vec![PANIC_MARK]))
-        } else if !focus_limits && i % tcp::share(thorough) == 9 {
-            tcp_stream.run_generated(&rt, &mut r, thorough)
         } else {
-            run_generated(&rt, &mut r, thorough, focus_limits)
+            match tcp::stream_of(i, thorough, only) {
+                Some(k) => tcp_stream.run_generated(&rt, k, &mut r, thorough),
+                None => run_generated(&rt, &mut r, thorough, focus_limits),
+            }
         };
         out.emit(&c, &t);
     }
